@@ -7,8 +7,8 @@ package main
 
 import (
 	"bytes"
-	stdio "io"
 	"fmt"
+	stdio "io"
 	"sync"
 	"time"
 )
